@@ -106,7 +106,7 @@ def split_array(tokens):
 
 
 class Step(object):
-    __slots__ = ('op', 'out', 'obs', 'extra', 'raw_out', 'raw_obs')
+    __slots__ = ('op', 'out', 'obs', 'extra', 'raw_out', 'raw_obs', 'oids')
 
     def __repr__(self):
         return 'Step(%r -> %r)' % (self.op[0], self.out)
@@ -160,6 +160,7 @@ def run_history(history, oids, server_version='5.0.5', probe=None):
     steps = canon_side(history, seq)
     for st, r in zip(steps, pyres):
         st.extra = r[2]
+        st.oids = oids
     return steps
 
 
@@ -326,3 +327,47 @@ def freeze(v):
 def py_equal(a, b):
     """Python == on decoded values (dicts order-insensitive, 1 == 1.0 == True)"""
     return a == b
+
+
+def full_view(op, out, obs):
+    """outcome and the complete observable state (documents type-exactly, index names)"""
+    if isinstance(obs, dict):
+        docs = obs.get('docs')
+        st = (tuple(freeze(d) for d in docs) if isinstance(docs, list) else docs,
+              tuple(obs.get('indexes') or ()))
+    else:
+        st = obs
+    if out[0] == 'set':
+        o = ('set', tuple(sorted(repr(freeze(x)) for x in out[1])))
+    elif out[0] == 'val':
+        o = ('val', freeze(out[1]))
+    else:
+        o = tuple(freeze(x) for x in out)
+    return (o, st)
+
+
+def state_of(obs):
+    if not isinstance(obs, dict):
+        return obs
+    docs = obs.get('docs')
+    return (tuple(freeze(d) for d in docs) if isinstance(docs, list) else docs,
+            tuple(obs.get('indexes') or ()))
+
+
+def module_api(mod, quick, thorough):
+    """the standard run / replay / replay_finding of a history property module"""
+    def run(ctx, proof, driver_ok):
+        if not driver_ok:
+            return {'explanation': 'model driver unavailable'}
+        return Engine(ctx, mod).run(ctx.n(quick, thorough))
+
+    def replay(ctx, path):
+        return Engine(ctx, mod).replay(path)
+
+    def replay_finding(ctx, e):
+        oids = wire.Oids()
+        history = wire.dec(e['witness']['wire_history'], oids)
+        py = run_history(history, oids, getattr(mod, 'server_version', '5.0.5'),
+                         getattr(mod, 'probe', None))
+        return any(label == e['id'] for (_, label, _) in mod.oracle(history, py))
+    return run, replay, replay_finding
